@@ -453,7 +453,21 @@ impl<'a> Runner<'a> {
                             if let Some((r, _)) = reference.as_mut() {
                                 r.apply_evm_state(&rs.state, self.sc);
                             }
+                            // EIP-161: accounts this transaction touched and left empty
+                            let touched_empty: Vec<Address> = if self.sc && check_reads {
+                                rs.state.iter().filter(|(_, acc)| acc.is_touched() && acc.is_empty() && !acc.is_selfdestructed()).map(|(a, _)| *a).collect()
+                            } else {
+                                vec![]
+                            };
                             sys.commit(rs.state);
+                            // ... are removed: the State must not report them as existing any more
+                            // (exact, not normalised: "exists but empty" is the wrong answer here)
+                            for a in touched_empty {
+                                stats.inc("probe.touched_empty_account_committed");
+                                if let Ok(Some(i)) = sys.evm().context.evm.db.basic(a) {
+                                    self.v("C15", "C15.reads", &[("field", "touched-empty-not-removed".into())], format!("group {gi}: {a} was touched and left empty by a committed transaction (state clearing active) but the State still reports it as existing: {i:?}"));
+                                }
+                            }
                             break;
                         }
                         Err(o) if o.is_db_err() => {
@@ -640,6 +654,21 @@ pub fn run_state_case(case: &StateCase, stats: &mut Stats) -> Vec<Violation> {
                         }
                     }
                     Err(e) => rn.v("C16", "C16.changeset", &[("known", name.into()), ("field", "code-missing".into())], e),
+                }
+            }
+            // EIP-161 exactly (the comparison above treats "empty" and "absent" alike): an
+            // account that was on the disk as an empty account and that the history touched is
+            // deleted by the changeset. Only where the database reports empty accounts at all.
+            if sc && !w.cfg.empty_as_none {
+                for (a, acc) in &durable.accounts {
+                    if acc.is_empty() && acc.storage.is_empty() && !reference.accounts.contains_key(a) {
+                        stats.inc("probe.empty_account_deleted_by_history");
+                        for (name, post) in [("Yes", &post_yes), ("No", &post_no)] {
+                            if post.infos.contains_key(a) {
+                                rn.v("C16", "C16.changeset", &[("known", name.into()), ("field", "touched-empty-not-deleted".into())], format!("groups {seg_start}..={k}: {a} was an empty account on the disk and was touched (state clearing active); the changeset({name}) does not delete it"));
+                            }
+                        }
+                    }
                 }
             }
             stats.inc("probe.changeset_checked");
